@@ -366,6 +366,20 @@ func buildLines(src []byte) []string {
 }
 
 var exportFiles = map[string]string{
+	"server/go/pkg/server/zz_verif_export.go": `package server
+
+import "github.com/godaddy/asherah/go/appencryption"
+
+// VerifNewAppEncryption builds the sidecar service around a caller-supplied
+// SessionFactory (exactly what NewAppEncryption does after constructing its own).
+func VerifNewAppEncryption(sf *appencryption.SessionFactory) *AppEncryption {
+	return &AppEncryption{
+		streamerFactory: streamerFactoryFunc(func() *streamer {
+			return &streamer{sessionFactory: sf}
+		}),
+	}
+}
+`,
 	"go/securememory/protectedmemory/zz_verif_export.go": `package protectedmemory
 
 import (
